@@ -1,11 +1,14 @@
 #!/bin/bash
-# confirm every behaviour-preserving change that has no verify.json yet (digest with/without + full baseline suite; two at a time)
+# confirm every behaviour-preserving change that has no verify.json yet: digest with / without the change in a fresh scratch
+# worktree (pass --suite to run the full baseline suite with the change as well; the sub-agents ran it when they made the change)
+MODE=${1:---skip-suite}
+[ "$MODE" = "--suite" ] && MODE=""
 one() {
   d=$1
-  /venv/bin/python /verif/tools/verify_benign.py $d > $d/verify.json.tmp 2>/dev/null; mv $d/verify.json.tmp $d/verify.json
+  /venv/bin/python /verif/tools/verify_benign.py $d $2 > $d/verify.json.tmp 2>/dev/null; mv $d/verify.json.tmp $d/verify.json
   echo "$(basename $d): $(grep -o '"confirmed": [a-z]*' $d/verify.json)"
 }
 export -f one
 for d in /verif/benign/C*-b*; do
   [ -f $d/verify.json ] || echo $d
-done | xargs -P 3 -I{} bash -c 'one {}'
+done | xargs -P 2 -I{} bash -c "one {} $MODE"
